@@ -37,6 +37,21 @@ const (
 type Options struct {
 	NegatedStringPredicate NegatedStringPredicateMode
 
+	// Shuffle selects one of the row orders that openCypher leaves open. 0 keeps the natural enumeration
+	// order; 1 is exactly the reversed natural order; any other value k is a deterministic pseudo-random
+	// permutation derived from k and the row contents. The permutation is applied to the row stream right
+	// before every place where its order can influence the result: before the (stable) ORDER BY sort and
+	// before SKIP / LIMIT of every WITH and RETURN, to the rows of a group before collect() builds its
+	// list, and to the incoming rows of UNWIND. It also selects which of several equally short paths
+	// shortestPath() returns. A query whose bag of result rows is the same for several Shuffle values does
+	// not depend on the unspecified order.
+	Shuffle uint64
+
+	// EmptyExclusiveKindMatcherIsFalse: a KindMatcher with IsExclusive == true and no kinds is false
+	// instead of vacuously true. Only Go code can build such a matcher; DAWGS's translator keeps it
+	// "matching nothing" on purpose (/repo/cypher/models/pgsql/translate/kind.go:20-28).
+	EmptyExclusiveKindMatcherIsFalse bool
+
 	// ShortestPathAll makes a shortestPath(...) pattern part return every shortest path (the result of
 	// allShortestPaths) instead of one deterministic representative. A checker validates a system under
 	// test that returns any single shortest path by testing membership in this superset.
@@ -94,11 +109,11 @@ func syntaxError(format string, args ...any) error {
 
 // Eval evaluates a read query on g with plain openCypher semantics.
 func Eval(q *cypher.RegularQuery, g gmodel.Graph, params map[string]any) (gmodel.Result, error) {
-	return EvalWith(q, g, params, Options{})
+	return EvalOpt(q, g, params, Options{})
 }
 
-// EvalWith is Eval with option switches.
-func EvalWith(q *cypher.RegularQuery, g gmodel.Graph, params map[string]any, opts Options) (res gmodel.Result, err error) {
+// EvalOpt is Eval with options.
+func EvalOpt(q *cypher.RegularQuery, g gmodel.Graph, params map[string]any, opts Options) (res gmodel.Result, err error) {
 	defer func() {
 		if p := recover(); p != nil {
 			res, err = gmodel.Result{}, &InternalError{Panic: p, Stack: string(debug.Stack())}
@@ -116,11 +131,11 @@ func EvalWith(q *cypher.RegularQuery, g gmodel.Graph, params map[string]any, opt
 // EvalCriteria evaluates one expression against variable bindings (for example {n} or {s, r, e}).
 // Binding values are Cypher values; gmodel.Node and gmodel.Edge are accepted and converted.
 func EvalCriteria(expr cypher.Expression, binding map[string]gmodel.Value, g gmodel.Graph, params map[string]any) (gmodel.Value, error) {
-	return EvalCriteriaWith(expr, binding, g, params, Options{})
+	return EvalCriteriaOpt(expr, binding, g, params, Options{})
 }
 
-// EvalCriteriaWith is EvalCriteria with option switches.
-func EvalCriteriaWith(expr cypher.Expression, binding map[string]gmodel.Value, g gmodel.Graph, params map[string]any, opts Options) (val gmodel.Value, err error) {
+// EvalCriteriaOpt is EvalCriteria with options.
+func EvalCriteriaOpt(expr cypher.Expression, binding map[string]gmodel.Value, g gmodel.Graph, params map[string]any, opts Options) (val gmodel.Value, err error) {
 	defer func() {
 		if p := recover(); p != nil {
 			val, err = nil, &InternalError{Panic: p, Stack: string(debug.Stack())}
